@@ -19,6 +19,8 @@ declare -A CHECKS=(
  [C04-3]="C04" [C04-4]="C04 C10" [C05-3]="C05 C07" [C05-4]="C05" [C06-3]="C06 C04" [C06-4]="C06 C07"
  [C07-3]="C07" [C07-4]="C07 C10 C02" [C08-3]="C08" [C08-4]="C08 C15" [C09-3]="C09" [C09-4]="C09"
  [C10-3]="C10" [C10-4]="C10 C04" [C11-3]="C11 C09" [C11-4]="C11" [C13-3]="C13" [C13-4]="C13" [C20-3]="C20" [C20-4]="C20"
+ [C16-6]="C16 C04 C03" [C07-6]="C07 C02" [C02-5]="C02 C10 C07" [C02-6]="C02 C01" [C06-6]="C06 C02" [C01-5]="C01 C02" [C01-6]="C01 C07"
+ [C08-5]="C08 C13" [C08-6]="C08 C15" [C11-5]="C11 C04 C10"
 )
 NAMES=${@:-$(ls /verif/seeded | grep -E '^C[0-9]+-[0-9]+$')}
 OUT=/verif/seeded/RESULTS.txt
